@@ -8,8 +8,9 @@ import itertools
 
 import decode
 import exp
+import tt
 import mathlib as M
-from exp import Agg, Int, Lin
+from exp import Opt, Agg, Int, Lin
 from facts import callee
 from mirutil import Resolver
 from props import common
@@ -60,7 +61,20 @@ def coord_slots(point, g):
     return out, inf
 
 
+def fe_slots(v):
+    """Flatten a coordinate value into the list of read indices feeding its Fq slots (G2: [c0, c1] per coordinate)."""
+    if isinstance(v, tuple) and v and v[0] == 'fe':
+        return [(v[1], v[2])]
+    if isinstance(v, Agg):
+        out = []
+        for x in v.items:
+            out.extend(fe_slots(x))
+        return out
+    return [(None, repr(v))]
+
+
 def rule_unchecked(fx, rep):
+    import decode2
     n_dec = 0
     for name, ty, nbytes, compressed, g, ncoord in DECODERS:
         path = fx.impl_method(ENC, ty, 'into_affine_unchecked')
@@ -69,7 +83,6 @@ def rule_unchecked(fx, rep):
             continue
         rep.fn(path)
         where = fx.fn(path)['span']
-        # the wrapped array length is the encoding size
         a = fx.adts.get(ty)
         arr = a['variants'][0]['fields'][0]['ty'] if a else ''
         rep.check(arr == '[u8; %d]' % nbytes, 'BYTES', '%s:array-length' % name, 'wraps [u8; %d]' % nbytes, 'wraps %s' % arr, where)
@@ -79,7 +92,7 @@ def rule_unchecked(fx, rep):
         n_dec += 1
         for flags in itertools.product((0, 1), repeat=3):
             b7, b6, b5 = flags
-            R = decode.DecoderRun(fx, path, nbytes, flags)
+            R = decode2.DecoderRun2(fx, path, nbytes, flags)
             inst = '%s:flags=%d%d%d' % (name, b7, b6, b5)
             try:
                 res = R.run()
@@ -87,14 +100,15 @@ def rule_unchecked(fx, rep):
                 rep.fail('TABLE', inst, 'decoder not derivable: %s' % e, where, construct=path)
                 continue
             rep.sites(R.call_sites)
-            outs = []
+            outs = []          # (path, class tuple, condition)
             for pth, ret, _ in res:
-                outs.append((pth, decode.classify(ret)))
-            classes = sorted(set(cls2(c) for _, c in outs), key=str)
-            asserts = [e for pth, _ in outs for e in pth.events if e[0].startswith('assert-')]
-            rep.check(not asserts, 'PANIC', inst + ':assertions', 'every bounds/overflow assertion on the path is decided true',
-                      'assertions not discharged: %s' % asserts[:3], where, construct=path)
-            panics = [c for _, c in outs if c[0] == 'panic']
+                for c, cond in decode2.outcomes(ret):
+                    outs.append((pth, c, cond))
+            classes = sorted(set((c[0], c[1] if len(c) > 1 and isinstance(c[1], str) else '') for _, c, _ in outs), key=str)
+            asserts = [e for pth, _, _ in outs for e in pth.events if e[0].startswith('assert-') or e[0] == 'unwrap-fails']
+            rep.check(not asserts, 'PANIC', inst + ':assertions', 'every bounds/overflow assertion and unwrap on the path is decided not to fail',
+                      'not discharged: %s' % asserts[:3], where, construct=path)
+            panics = [c for _, c, _ in outs if c[0] == 'panic']
             rep.check(not panics, 'PANIC', inst + ':no-panic', 'no diverging path', 'diverging paths: %s' % panics[:2], where, construct=path)
             wrong_form = (b7 == 1) if not compressed else (b7 == 0)
             if wrong_form:
@@ -102,21 +116,21 @@ def rule_unchecked(fx, rep):
                 rep.check(classes == want, 'TABLE', inst, 'form flag mismatch -> UnexpectedCompressionMode', 'outcomes %s, expected %s' % (classes, want), where, construct=path)
                 continue
             if b6 == 1:
-                # infinity: all remaining bits must be zero, tested over the whole buffer
                 if b5 == 1:
                     want = [('Err', 'UnexpectedInformation')]
                 else:
                     want = sorted([('Err', 'UnexpectedInformation'), ('Ok', 'zero')], key=str)
                 rep.check(classes == want, 'TABLE', inst, 'infinity flag: Ok(identity) iff every other bit is zero, else UnexpectedInformation',
                           'outcomes %s, expected %s' % (classes, want), where, construct=path)
-                spans = [e for pth, _ in outs for e in pth.events if e[0] == 'all_zero_over']
-                rep.check(spans and all(e[1] == nbytes for e in spans), 'TABLE', inst + ':whole-buffer', 'the all-zero test covers all %d bytes' % nbytes,
-                          'the all-zero test covers %s bytes' % [e[1] for e in spans], where, construct=path)
-                for pth, c in outs:
+                for pth, c, cond in outs:
                     if c[:2] == ('Ok', 'zero'):
-                        ls = [lab_name(l) for l in pth.labels]
-                        rep.check(ls and ls[-1][0] == 'all_zero' and ls[-1][1], 'TABLE', inst + ':zero-only-if-all-zero', 'identity returned only under the all-zero test',
-                                  'identity returned under %s' % ls, where, construct=path)
+                        lits = tt.path_literals(pth)
+                        under = any(k_ == decode2.PAYLOAD_ZERO and t_ for k_, t_, _l in lits)
+                        tested = sorted(set(e[1] for e in pth.events if e[0] == 'zero-test'))
+                        rep.check(under, 'TABLE', inst + ':zero-only-if-all-zero', 'identity returned only under the all-zero test',
+                                  'identity returned under %s' % [(k_, t_) for k_, t_, _l in lits], where, construct=path)
+                        rep.check(tested == list(range(nbytes)), 'TABLE', inst + ':whole-buffer', 'the all-zero test covers all %d bytes' % nbytes,
+                                  'the all-zero test covers only bytes %s' % (_ranges(tested),), where, construct=path)
                 continue
             if not compressed and b5 == 1:
                 want = [('Err', 'UnexpectedInformation')]
@@ -124,64 +138,80 @@ def rule_unchecked(fx, rep):
                           'outcomes %s, expected %s (an encoding differing only in the sort bit would decode to the same point)' % (classes, want), where, construct=path)
                 continue
             # coordinates
-            oks = [(pth, c) for pth, c in outs if c[0] in ('Ok', 'ok_or')]
-            errs = [(pth, c) for pth, c in outs if c[0] == 'Err']
-            good = len(oks) == 1 and len(errs) == ncoord and all(c[1] == 'propagated' for _, c in errs)
-            rep.check(good, 'TABLE', inst, 'coordinate path: %d range checks, each failing -> error, one success' % ncoord,
-                      'outcomes %s' % [cls2(c) for _, c in outs], where, construct=path)
+            oks = [(pth, c, cond) for pth, c, cond in outs if c[0] == 'Ok']
+            errs = [(pth, c, cond) for pth, c, cond in outs if c[0] == 'Err']
+            range_errs = [x for x in errs if x[1][1] == 'CoordinateDecodingError']
+            other_errs = sorted(set(x[1][1] for x in errs if x[1][1] != 'CoordinateDecodingError'))
+            good = len(oks) == 1 and len(range_errs) == ncoord and other_errs == (['NotOnCurve'] if compressed else [])
+            rep.check(good, 'TABLE', inst, 'coordinate path: %d range checks, each failing -> CoordinateDecodingError, one success%s' % (ncoord, '; no root -> NotOnCurve' if compressed else ''),
+                      'outcomes %s' % [(c[0], c[1]) for _, c, _ in outs], where, construct=path)
+            # each range error arises exactly when that coordinate's from_repr fails after the earlier ones succeeded
+            firsts = []
+            for pth, c, cond in range_errs:
+                lits = [(k_, t_) for k_, t_, _l in tt.path_literals(pth) if isinstance(k_, tuple) and k_ and k_[0] == 'from_repr']
+                failing = [k_[1] for k_, t_ in lits if t_]
+                firsts.append(failing[0] if len(failing) == 1 and lits and lits[-1][1] else None)
+            rep.check(sorted(firsts, key=str) == sorted(range(ncoord)), 'TABLE', inst + ':range-error', 'out-of-range coordinate k -> CoordinateDecodingError (first failing check wins)',
+                      'range errors arise under failing checks %s' % firsts, where, construct=path)
             if not oks:
                 continue
-            pth, c = oks[0]
-            lost = [e for e in pth.events if e[0] == 'source-bits-discarded']
-            rep.check(len(lost) == 1 and lost[0][1] == [], 'TABLE', inst + ':no-input-bit-discarded',
+            pth, c, cond = oks[0]
+            reads = [e for e in pth.events if e[0] == 'read_be']
+            lost = [x for e in reads for x in e[3]]
+            rep.check(reads and not lost, 'TABLE', inst + ':no-input-bit-discarded',
                       'the coordinates are read from the input bytes with only the three (already decided) flag bits masked',
                       'input bits are cleared without having been tested: %s (byte index, bit mask) -- encodings differing in those bits decode identically'
-                      % (lost[0][1] if lost else 'no read',), where, construct=path)
-            reads = [e for e in pth.events if e[0] == 'read_be']
-            rep.check(len(reads) == ncoord and ncoord * 48 == nbytes, 'BYTES', inst + ':reads', '%d big-endian reads of 48 bytes = %d' % (ncoord, nbytes),
-                      '%d reads of 48 bytes from a %d-byte buffer (read_be().unwrap() could fail)' % (len(reads), nbytes), where, construct=path)
+                      % (lost if reads else 'no read',), where, construct=path)
+            want_idx = [list(range(48 * k, 48 * k + 48)) for k in range(ncoord)]
+            rep.check([e[2] for e in reads] == want_idx and ncoord * 48 == nbytes, 'BYTES', inst + ':reads', '%d big-endian reads of consecutive 48-byte words = %d bytes' % (ncoord, nbytes),
+                      'reads cover bytes %s' % [_ranges([i for i in (e[2] or []) if i is not None]) for e in reads], where, construct=path)
+            fr_tys = [e[2] for e in pth.events if e[0] == 'from_repr']
+            rep.check(len(fr_tys) == ncoord and all(t == 'bls12_381::fq::Fq' for t in fr_tys), 'WIRE', inst + ':from_repr', 'every coordinate goes through Fq::from_repr (range check)', 'range checks on %s' % fr_tys, where)
             if compressed:
-                ok = c[0] == 'ok_or' and isinstance(c[1], tuple) and c[1][0] == 'point_from_x'
-                errv = c[2] if c[0] == 'ok_or' else None
-                okerr = isinstance(errv, Agg) and errv.kind and errv.kind[1] == 'NotOnCurve'
-                rep.check(ok and okerr, 'TABLE', inst + ':sqrt-step', 'result = get_point_from_x(x, greatest).ok_or(NotOnCurve)', 'compressed path ends in %r' % (cls2(c),), where, construct=path)
+                ok = c[1] == 'point_from_x'
+
+                def under_none(x):
+                    # the helper's Option: variant 1 = Some (through ok_or the label is negated; canon() undoes that)
+                    conds = [(k_, t_) for k_, t_, _l in tt.path_literals(x[0])]
+                    if x[2] is not None:
+                        key_, neg_ = tt.canon(x[2][0])
+                        conds.append((key_, bool(x[2][1]) != neg_))
+                    return (('point_from_x',), False) in conds
+                sib = [x for x in errs if x[1][1] == 'NotOnCurve' and under_none(x)]
+                rep.check(ok and len(sib) == 1, 'TABLE', inst + ':sqrt-step', 'result = the point helper applied to (x, greatest): Some -> Ok, None -> NotOnCurve', 'compressed path ends in %r' % ((c[0], c[1]),), where, construct=path)
                 if ok:
-                    xval, gr = c[1][1], c[1][2]
+                    xval, gr = c[2][1], c[2][2]
                     rep.check(isinstance(gr, Int) and gr.v == b5, 'TABLE', inst + ':greatest=sort-flag', 'the root selector is the sort flag bit',
                               'root selector is %r for sort flag %d' % (gr, b5), where, construct=path)
-                    pt = Agg([xval]) if g == 'G1' else Agg([xval])
-                    slots, _ = coord_slots(Agg([xval, None, None]), g) if False else (None, None)
-                    flat = []
-                    if isinstance(xval, Agg):
-                        flat = [coord_slots(Agg([xval]), g)[0]]
-                        flat = flat[0]
-                    else:
-                        flat = coord_slots(Agg([xval]), g)[0]
                     want_order = [0] if g == 'G1' else [1, 0]
-                    got = [s[0] if s else None for s in flat]
+                    got = [s_[0] for s_ in fe_slots(xval)]
                     rep.check(got == want_order, 'BYTES', inst + ':layout', 'x%s read in wire order (c1 before c0)' % ('' if g == 'G1' else '.c0/.c1'),
                               'coordinate slots are fed by reads %s, expected %s' % (got, want_order), where, construct=path)
-                    errsv = [decode.closure_error_variant(fx, s[1]) for s in flat if s]
-                    rep.check(all(e and e[0] == 'CoordinateDecodingError' for e in errsv) and len(errsv) == ncoord, 'TABLE', inst + ':range-error',
-                              'out-of-range coordinate -> CoordinateDecodingError', 'range errors are %s' % errsv, where, construct=path)
             else:
-                ok = c[:2] == ('Ok', 'point')
-                rep.check(ok, 'TABLE', inst + ':point', 'Ok(point built from the range-checked coordinates)', 'success path returns %r' % (cls2(c),), where, construct=path)
+                ok = c[1] == 'point' and isinstance(c[2], Agg) and len(c[2].items) == 3
+                rep.check(ok, 'TABLE', inst + ':point', 'Ok(point built from the range-checked coordinates)', 'success path returns %r' % ((c[0], c[1]),), where, construct=path)
                 if ok:
-                    slots, inf = coord_slots(c[2], g)
+                    xs, ys, inf = c[2].items
                     want_order = [0, 1] if g == 'G1' else [1, 0, 3, 2]
-                    got = [s[0] if s else None for s in slots]
+                    got = [s_[0] for s_ in fe_slots(xs) + fe_slots(ys)]
                     rep.check(got == want_order and isinstance(inf, Int) and inf.v == 0, 'BYTES', inst + ':layout', 'coordinates read in wire order x then y (c1 before c0), infinity = false',
                               'coordinate slots are fed by reads %s (expected %s), infinity=%r' % (got, want_order, inf), where, construct=path)
-                    errsv = [decode.closure_error_variant(fx, s[1]) for s in slots if s]
-                    rep.check(all(e and e[0] == 'CoordinateDecodingError' for e in errsv) and len(errsv) == ncoord, 'TABLE', inst + ':range-error',
-                              'out-of-range coordinate -> CoordinateDecodingError', 'range errors are %s' % errsv, where, construct=path)
-                    tys = [s[2] for s in slots if s]
-                    rep.check(all(t == 'bls12_381::fq::Fq' for t in tys), 'WIRE', inst + ':from_repr', 'every coordinate goes through Fq::from_repr (range check)', 'coordinate types %s' % tys, where)
     rep.floor('TABLE', 'unchecked-decoders', n_dec, 4)
 
 
+def _ranges(xs):
+    out = []
+    for x in xs:
+        if out and out[-1][1] == x - 1:
+            out[-1][1] = x
+        else:
+            out.append([x, x])
+    return ['%d..%d' % (a, b) if a != b else '%d' % a for a, b in out]
+
+
 def rule_checked(fx, rep):
+    """Checked decoders as a truth table over (own unchecked decoder succeeds, is_on_curve, in_subgroup)."""
+    import decode2
     n = 0
     for name, ty, nbytes, compressed, g, ncoord in DECODERS:
         path = fx.impl_method(ENC, ty, 'into_affine')
@@ -191,53 +221,45 @@ def rule_checked(fx, rep):
         rep.fn(path)
         n += 1
         where = fx.fn(path)['span']
-        R = decode.DecoderRun(fx, path, nbytes, (0, 0, 0))
+        R = decode2.DecoderRun2(fx, path, nbytes, (0, 0, 0))
         try:
             res = R.run()
         except (exp.NotDerivable, exp.Budget) as e:
             rep.fail('GUARD', '%s:checked' % name, 'not derivable: %s' % e, where, construct=path)
             continue
         rep.sites(R.call_sites)
-        want_preds = ['in_subgroup'] if compressed else ['is_on_curve', 'in_subgroup']
-        ok_paths = 0
+        val = ('unchecked_result', ty)
+        ku = ('unchecked',)
+        kc = ('is_on_curve', decode2.freeze(val))
+        ks = ('in_subgroup', decode2.freeze(val))
+        keys = [ku, ks] if compressed else [ku, kc, ks]
         bad = []
-        for pth, ret, _ in res:
-            c = decode.classify(ret)
-            labs = [lab_name(l) for l in pth.labels]
-            if c[0] == 'Ok':
-                ok_paths += 1
-                names = [(nm, tk) for nm, tk, _ in labs]
-                want = [('try', False)] + [(p, True) for p in want_preds]
-                # try label: taken value 0 = Continue
-                seq = [(nm, (tk if nm != 'try' else tk)) for nm, tk in names]
-                if seq != want:
-                    bad.append('Ok returned under %s, expected %s' % (seq, want))
-                inner = ret.items[0] if isinstance(ret, Agg) and ret.items else None
-                if not (isinstance(inner, tuple) and inner[0] == 'try' and inner[1][0] == 'unchecked_result' and inner[1][1] == ty):
-                    bad.append('Ok carries %r, not the value decoded by this type\'s unchecked decoder' % (inner,))
-                # predicates applied to that same value
-                for nm, tk, x in labs:
-                    if nm in ('is_on_curve', 'in_subgroup') and x[1] != inner:
-                        bad.append('%s is applied to %r, not to the decoded point' % (nm, x[1]))
-            elif c[0] == 'Err':
-                names = [(nm, tk) for nm, tk, _ in labs]
-                if c[1] == 'propagated':
-                    if names != [('try', True)]:
-                        bad.append('error propagated under %s' % names)
-                elif c[1] == 'NotOnCurve':
-                    if compressed or names != [('try', False), ('is_on_curve', False)]:
-                        bad.append('NotOnCurve under %s' % names)
-                elif c[1] == 'NotInSubgroup':
-                    want = [('try', False)] + [(p, True) for p in want_preds[:-1]] + [('in_subgroup', False)]
-                    if names != want:
-                        bad.append('NotInSubgroup under %s, expected %s (validation order)' % (names, want))
-                else:
-                    bad.append('unexpected error %s' % (c[1],))
+        for k_ in tt.predicates(res):
+            if k_ not in keys:
+                bad.append('tests %r (expected: own unchecked decoder%s, in_subgroup, all on the decoded value)' % (k_, '' if compressed else ', is_on_curve'))
+        for env, cons in ([] if bad else tt.table(res, keys)):
+            # the unchecked decoder's label: variant 1 = Err
+            if env[ku]:
+                want = ('Err', 'propagated')
+            elif not compressed and not env[kc]:
+                want = ('Err', 'NotOnCurve')
+            elif not env[ks]:
+                want = ('Err', 'NotInSubgroup')
             else:
-                bad.append('unexpected outcome %r' % (cls2(c),))
-        rep.check(not bad and ok_paths == 1, 'GUARD', '%s:checked:validation-order' % name,
-                  'Ok only after unchecked decode succeeded%s and in_subgroup; errors in the order form/flags/range -> curve -> subgroup' % ('' if compressed else ', is_on_curve'),
-                  '; '.join(bad) or '%d Ok paths' % ok_paths, where, construct=path)
+                want = ('Ok', 'unchecked_result')
+            got = []
+            for pth, ret, _ in cons:
+                for c, cond in decode2.outcomes(ret):
+                    if cond is not None:
+                        key_, neg_ = tt.canon(cond[0])
+                        if key_ in env and (env[key_] != neg_) != bool(cond[1]):
+                            continue
+                    got.append((c[0], c[1]))
+            if got != [want]:
+                bad.append('when (unchecked fails%s, in_subgroup) = %r: %s, expected %s' % ('' if compressed else ', on curve', tuple(env[k_] for k_ in keys), got, want))
+        rep.check(not bad, 'GUARD', '%s:checked:validation-order' % name,
+                  'Ok (the value decoded by this type\'s unchecked decoder) only after%s in_subgroup; errors in the order form/flags/range -> curve -> subgroup' % ('' if compressed else ' is_on_curve and'),
+                  '; '.join(sorted(set(bad))[:3]), where, construct=path)
     rep.floor('GUARD', 'checked-decoders', n, 4)
 
 
@@ -363,6 +385,9 @@ def rule_predicates(fx, rep):
 
 
 def rule_root_selection(fx, rep, g, aff):
+    """(x, greatest) -> point helper of the compressed decoder, interpreted as a whole (any shape: closure passed to
+    Option::map, `?` and straight-line code, xor or equality of the two booleans):
+    None iff sqrt(x^3 + b) is None; otherwise (x, y', finite) with y' the larger of {y, -y} iff `greatest`."""
     p = roles.roles(fx)[g].get('get_point_from_x')
     b = fx.body(p)
     coeff_b = roles.roles(fx)[g].get('get_coeff_b')
@@ -370,110 +395,101 @@ def rule_root_selection(fx, rep, g, aff):
         rep.fail('GUARD', '%s:get_point_from_x:anchor' % g, 'the compressed decoder calls no (x, greatest) -> point helper')
         return
     rep.fn(p)
-    clos = [q for q in fx.fns if q.startswith(p + '::{closure')]
-    if len(clos) != 1:
-        rep.fail('GUARD', '%s:root-selection' % g, 'expected one closure building the point, found %d' % len(clos), fx.fn(p)['span'])
-        return
-    cp = clos[0]
-    rep.fn(cp)
-    where = fx.fn(cp)['span']
-    ok = True
-    why = ''
+    where = fx.fn(p)['span']
+    base = 'bls12_381::fq::Fq' if g == 'G1' else 'bls12_381::fq2::Fq2'
+    y = Lin.atom('y')
+    negy = Lin({'y': 1, '-1': 1})
+    bad = []
     for greatest in (0, 1):
+        sq = []
+
         def tr(I, fr, t, c, pth):
-            if c.get('trait') == 'std::cmp::PartialOrd' and c.get('name') in ('lt', 'gt', 'le', 'ge'):
-                a = fr.deref_operand(t['args'][0])
-                b_ = fr.deref_operand(t['args'][1])
-                fr.storev(t['dest'], ('bool', (c['name'], a, b_, c.get('self_ty'))))
+            nm_ = c.get('name')
+            if coeff_b and c.get('res') == coeff_b:
+                fr.storev(t['dest'], Lin.atom('b'))
+                return True
+            if nm_ == 'sqrt' and c.get('trait') == 'ff::SqrtField':
+                sq.append(fr.deref_operand(t['args'][0]))
+                fr.storev(t['dest'], Opt(None, y, ('sqrt', t['span'])))
+                return True
+            if c.get('trait') == 'std::cmp::PartialOrd' and nm_ in ('lt', 'gt', 'le', 'ge'):
+                fr.storev(t['dest'], ('bool', (nm_, fr.deref_operand(t['args'][0]), fr.deref_operand(t['args'][1]), c.get('self_ty'))))
+                return True
+            if nm_ == 'branch' and c.get('trait') == 'std::ops::Try':
+                v = fr.operand(t['args'][0])
+                if isinstance(v, Opt):
+                    # ControlFlow: Continue(payload) when Some, Break when None
+                    fr.storev(t['dest'], Opt({'some': 'none', 'none': 'some'}.get(v.tag), v.payload, ('not', v.label) if v.label else None))
+                    return True
+            if nm_ == 'from_residual':
+                fr.storev(t['dest'], Opt('none', exp.TOP))
                 return True
             return False
         I = exp.Interp(fx, 'mul', extra_transfer=tr)
-        # closure args: (captures, y).  captures = (x, greatest) by reference/value
-        cb = fx.body(cp)
-        caps = cb.local_ty(1)
-        # captured upvars: order as in the closure aggregate in the parent body
-        agg = None
-        for blk in b.blocks:
-            for s in blk['stmts']:
-                if s['k'] == 'assign' and s['rv']['k'] == 'agg' and s['rv']['kind'].get('closure') == cp:
-                    agg = s['rv']
-        if agg is None:
-            ok, why = False, 'closure construction not found'
-            break
-        from wire import Origin, strip
-        o = Origin(b)
-        capvals = []
-        for op in agg['ops']:
-            t = strip(o.operand(op))
-            if t == ('param', 1):
-                capvals.append(Lin.atom('x'))
-            elif t == ('param', 2):
-                capvals.append(Int(greatest, 1))
-            else:
-                capvals.append(exp.TOP)
+        I.sums = True
+        I.fork_inlined = True
         try:
-            res = I.run(cp, [Agg(capvals), Lin.atom('y')])
+            res = I.run(p, [Lin.atom('x'), Int(greatest, 1)])
         except (exp.NotDerivable, exp.Budget) as e:
-            ok, why = False, 'not derivable: %s' % e
+            bad.append('not derivable: %s' % e)
             break
+        rep.sites(I.call_sites)
+        n_some = 0
         for pth, ret, _ in res:
-            if not (isinstance(ret, Agg) and len(ret.items) == 3):
-                ok, why = False, 'closure does not return an affine point aggregate'
+            if isinstance(ret, tuple) and ret and ret[0] == 'diverges':
+                bad.append('panic edge at %s' % (ret[1],))
                 continue
-            xx, yy, inf = ret.items
             labs = [lab_name(l) for l in pth.labels]
-            if len(labs) != 1 or labs[0][0] not in ('lt', 'gt'):
-                ok, why = False, 'selection branches on %r' % (labs,)
+            sq_lab = [l for l in labs if l[0] == 'sqrt']
+            root_exists = bool(sq_lab and sq_lab[0][1])
+            if not isinstance(ret, Opt) or ret.tag not in ('some', 'none'):
+                bad.append('does not return a decided Option on path %r' % ([l[:2] for l in labs],))
                 continue
-            nm, tk, x = labs[0]
-            a, b_ = x[1], x[2]
-            y = Lin.atom('y')
-            negy = Lin({'y': 1, '-1': 1})
-            # truth of "y < negy"
-            if nm == 'lt' and a == y and b_ == negy:
+            if not root_exists:
+                if ret.tag != 'none':
+                    bad.append('returns a point although x^3 + b has no square root')
+                continue
+            if ret.tag != 'some':
+                bad.append('returns None although a root exists')
+                continue
+            n_some += 1
+            pt = ret.payload
+            if not (isinstance(pt, Agg) and len(pt.items) == 3):
+                bad.append('does not return an affine point aggregate')
+                continue
+            xx, yy, inf = pt.items
+            cmpl = [l for l in labs if l[0] in ('lt', 'gt', 'le', 'ge')]
+            if len(cmpl) != 1:
+                bad.append('selection branches on %r' % ([l[:2] for l in labs],))
+                continue
+            nm_, tk, x_ = cmpl[0]
+            a, b_ = x_[1], x_[2]
+            if nm_ in ('lt', 'le') and a == y and b_ == negy:
                 y_smaller = tk
-            elif nm == 'gt' and a == y and b_ == negy:
+            elif nm_ in ('gt', 'ge') and a == y and b_ == negy:
                 y_smaller = not tk
-            elif nm == 'lt' and a == negy and b_ == y:
+            elif nm_ in ('lt', 'le') and a == negy and b_ == y:
                 y_smaller = not tk
-            elif nm == 'gt' and a == negy and b_ == y:
+            elif nm_ in ('gt', 'ge') and a == negy and b_ == y:
                 y_smaller = tk
             else:
-                ok, why = False, 'comparison is %s(%r, %r), expected y vs -y' % (nm, a, b_)
+                bad.append('comparison is %s(%r, %r), expected y vs -y' % (nm_, a, b_))
                 continue
-            # greatest -> larger root; else smaller root
             want = (negy if y_smaller else y) if greatest else (y if y_smaller else negy)
             if yy != want or xx != Lin.atom('x') or not (isinstance(inf, Int) and inf.v == 0):
-                ok, why = False, 'greatest=%d, y<-y=%s: returns (x=%r, y=%r, inf=%r)' % (greatest, y_smaller, xx, yy, inf)
-            base = 'bls12_381::fq::Fq' if g == 'G1' else 'bls12_381::fq2::Fq2'
-            if x[3] != base:
-                ok, why = False, 'comparison on type %s, the coordinate type is %s' % (x[3], base)
-    rep.check(ok, 'GUARD', '%s:root-selection' % g, 'greatest selects the lexicographically larger of y, -y; otherwise the smaller; x unchanged; finite', why, where, construct=cp)
-    # x^3 + b and sqrt in the parent
-    def tr2(I, fr, t, c, pth):
-        if coeff_b and c.get('res') == coeff_b:
-            fr.storev(t['dest'], Lin.atom('b'))
-            return True
-        if c.get('name') == 'sqrt' and c.get('trait') == 'ff::SqrtField':
-            fr.storev(t['dest'], ('sqrt_of', fr.deref_operand(t['args'][0])))
-            return True
-        if c['def'].startswith('std::option::Option::<T>::map'):
-            fr.storev(t['dest'], ('map', fr.operand(t['args'][0])))
-            return True
-        return False
-    I2 = exp.Interp(fx, 'mul', extra_transfer=tr2)
-    try:
-        res = I2.run(p, [Lin.atom('x'), exp.TOP])
-        good = len(res) == 1
-        ret = res[0][1] if good else None
-        good = good and isinstance(ret, tuple) and ret[0] == 'map' and isinstance(ret[1], tuple) and ret[1][0] == 'sqrt_of'
-        if good:
-            v = ret[1][1]
-            site = [s for s in I2.opaque_sites if isinstance(v, Lin) and s[0] in v.t]
-            good = bool(site) and site[0][1] == 'add_assign(Lin(x:3), Lin(b:1))'
-        rep.check(good, 'GUARD', '%s:get_point_from_x:rhs' % g, 'y = sqrt(x^3 + b), None iff no root', 'computes %r' % (ret,), fx.fn(p)['span'], construct=p)
-    except (exp.NotDerivable, exp.Budget) as e:
-        rep.fail('GUARD', '%s:get_point_from_x:rhs' % g, 'not derivable: %s' % e, fx.fn(p)['span'])
+                bad.append('greatest=%d, y<-y=%s: returns (x=%r, y=%r, inf=%r)' % (greatest, y_smaller, xx, yy, inf))
+            if x_[3] != base:
+                bad.append('comparison on type %s, the coordinate type is %s' % (x_[3], base))
+        if n_some != 2 and not bad:
+            bad.append('%d point-returning paths for greatest=%d (expected the two orderings of y, -y)' % (n_some, greatest))
+        # the square root is taken of x^3 + b
+        from exp import Sum
+        want_rhs = Sum.of(Lin({'x': 3})).add(Sum.of(Lin.atom('b')))
+        ok_rhs = len(sq) >= 1 and all((isinstance(v, Sum) and v == want_rhs) for v in sq)
+        if not ok_rhs:
+            bad.append('the square root is taken of %r, expected x^3 + b' % (sq[:1],))
+    rep.check(not bad, 'GUARD', '%s:root-selection' % g, 'None iff x^3 + b has no root; otherwise (x, y\', finite) where greatest selects the lexicographically larger of y, -y and otherwise the smaller',
+              '; '.join(sorted(set(bad))[:3]), where, construct=p)
 
 
 def rules(fx, rep):
